@@ -246,7 +246,10 @@ def gen_project(rnd, idx, forced=None):
             f = "f%d.rs" % rnd.randrange(nfiles)
             pl = placement if r == 0 else rnd.choice(PLACEMENTS)
             rc = receiver if r == 0 else rnd.choice(RECEIVERS)
-            fns.setdefault(f, []).append(emit_fn("emit_%d_%d" % (idx, k), pl, rc, method, name, form))
+            # attributes on the emitting function that compile it conditionally in production code (none of them makes it a test)
+            fattr = ["", "", "#[cfg(not(test))]\n", "#[cfg(any(desktop, test))]\n", "#[cfg(feature = \"testing-tools\")]\n", "#[cfg_attr(test, allow(dead_code))]\n#[inline]\n",
+                     "#[cfg(all(not(test), debug_assertions))]\n", "#[allow(clippy::test_attr_in_doctest)]\n"][(idx + k) % 8]
+            fns.setdefault(f, []).append(fattr + emit_fn("emit_%d_%d" % (idx, k), pl, rc, method, name, form))
     if idx % 3 == 1:
         # emissions whose event name is not a string literal (a constant, a variable, a formatted string): no listener can be
         # generated for them — in particular not one named after the target label of emit_to, which IS a literal
